@@ -105,6 +105,26 @@ def _compare(ref, got):
     return None
 
 
+def _only_signed_zero_artifact(raw, cur, feeds):
+    """True when raw and cur agree on the same feeds with every negative zero replaced by a positive one (and the feeds had some)."""
+    pos = {}
+    had = False
+    for k, v in feeds.items():
+        a = np.asarray(v)
+        if a.dtype.kind == "f" and a.size and np.any((a == 0) & np.signbit(a)):
+            had = True
+            a = np.where(a == 0, np.zeros_like(a), a)
+        pos[k] = a
+    if not had:
+        return False
+    try:
+        r0, e0 = _run_any(raw, pos)
+        r1, _ = _run_any(cur, pos, engine="reference" if e0.startswith("reference") else None)
+    except Exception:
+        return False
+    return _compare(r0, r1) is None
+
+
 def _declared_contradiction(model, outs):
     """A graph output's declared dtype/static dims must not contradict the runtime value."""
     from onnx import helper
@@ -191,6 +211,12 @@ def differential(model, feeds, function_bodies=True):
         if eng_got != "ort":
             res.setdefault("engine_notes", []).append(eng_got)
         diff = _compare(_baseline(eng_got), got)
+        if diff and _only_signed_zero_artifact(model, cur, feeds):
+            # ORT's reduction kernels do not agree among themselves on the sign of a zero result (a size-1 ReduceMean of -0.0 is
+            # -0.0 on the copy path and +0.0 on the accumulate path); a later division turns that into -inf vs +inf. If both models
+            # agree once the negative zeros of the feeds are made positive, the rewrite did not change what is computed.
+            res.setdefault("engine_notes", []).append("signed_zero_kernel_artifact")
+            diff = None
         if diff:
             res["violation"] = {"pass": p.name, "kind": "output_changed", "detail": diff}
             return res
